@@ -237,9 +237,6 @@ fn reference(c: &Case, y: &[f64]) -> Reference {
 /// multiple of tol allowed by the oracle ("a small multiple of tol")
 const C_TOL: f64 = 2.0;
 
-/// id in KNOWN_FINDINGS.txt; a `Fail` with this oracle is reported through `out.known`
-const KNOWN_CONSTANT_TARGET: &str = "constant-target";
-
 struct Fail {
     oracle: &'static str,
     what: String,
@@ -268,6 +265,12 @@ fn check_fit(c: &Case, y: &[f64], f: &FitOut, rf: &Reference, fails: &mut Vec<Fa
             ),
         });
     }
+    // a constant target: the optimum is w = 0 with intercept mean(y)
+    if rf.yc.iter().all(|v| *v == 0.0) {
+        if f.coef.iter().any(|v| v.abs() > 1e-12) || (f.intercept - rf.ymean).abs() > 1e-12 * (1.0 + rf.ymean.abs()) {
+            fails.push(Fail { oracle: "constant_target", what: format!("{}: constant target {:e} but coefficients {:?}, intercept {:e}", who, rf.ymean, f.coef, f.intercept) });
+        }
+    }
     // predict(X) = ymean + Z w  and  = X coef + intercept
     let zw = matvec(&rf.d.z, &w);
     let pscale = 1.0 + y.iter().fold(0.0f64, |a, b| a.max(b.abs())) + zw.iter().fold(0.0f64, |a, b| a.max(b.abs()));
@@ -292,22 +295,6 @@ fn evaluate(c: &Case) -> (Vec<Fail>, Option<(Outcome, Reference)>) {
     let mut fails = vec![];
     let who = if c.enet { "elastic net" } else { "lasso" };
     let rf = reference(c, &c.y);
-    if rf.yc.iter().all(|v| *v == 0.0) {
-        // KNOWN FINDING constant-target: the centred target is exactly zero
-        let base = run_fit_secs(c, &c.y, 3);
-        match &base {
-            Outcome::Timeout => fails.push(Fail { oracle: KNOWN_CONSTANT_TARGET, what: format!("{}: fit on a constant target never returns (gap = dobj = 0, NaN Newton direction, unbounded line search)", who) }),
-            Outcome::Err(e, _) if e.contains("tolerance shoud be > 0") => {
-                fails.push(Fail { oracle: KNOWN_CONSTANT_TARGET, what: format!("{}: fit on a constant target returns Err({}) instead of the zero coefficients", who, e) })
-            }
-            Outcome::Panic(m) => fails.push(Fail { oracle: "no_panic", what: format!("{}: fit on a constant target panicked: {}", who, m) }),
-            Outcome::Err(e, _) => fails.push(Fail { oracle: "valid_input_fits", what: format!("{}: fit on a constant target returned Err: {}", who, e) }),
-            Outcome::Ok(f, _) => {
-                check_fit(c, &c.y, f, &rf, &mut fails);
-            }
-        }
-        return (fails, Some((base, rf)));
-    }
     let base = run_fit(c, &c.y);
     let mut base_w: Option<(FitOut, Vec<f64>)> = None;
     match &base {
@@ -443,11 +430,6 @@ fn gen_xy(rng: &mut Rng, n: usize, p: usize, mean_mode: usize, dyadic: bool) -> 
             *v = (*v * 16.0).round() / 16.0;
         }
     }
-    // the random families keep the target non-constant (constant targets are the known finding
-    // `constant-target`, probed by their own family)
-    if y.iter().all(|v| *v == y[0]) {
-        y[0] += 1.0;
-    }
     (x, y)
 }
 
@@ -552,12 +534,7 @@ fn corr_case(out: &mut Out, c: &Case, group: &str) {
 // ------------------------------------------------------------------------------------------
 fn record(out: &mut Out, c: &Case, fails: Vec<Fail>, entry: &str) {
     for f in fails {
-        if f.oracle == KNOWN_CONSTANT_TARGET {
-            out.known(KNOWN_CONSTANT_TARGET, &format!("{} [x = {:?}, y = {:?}, alpha = {:e}, normalize = {}]", f.what, c.x, c.y, c.alpha, c.normalize));
-            out.count("search:known:constant-target");
-        } else {
-            out.fail(f.oracle, &f.what, case_json(c, entry));
-        }
+        out.fail(f.oracle, &f.what, case_json(c, entry));
     }
 }
 
@@ -652,15 +629,6 @@ fn replay(path: &str) -> i32 {
         "invalid" => evaluate_invalid(&c),
         _ => evaluate(&c).0,
     };
-    let fails: Vec<Fail> = fails
-        .into_iter()
-        .filter(|f| {
-            if f.oracle == KNOWN_CONSTANT_TARGET {
-                println!("REPLAY: property=C08 known finding {}: {}", KNOWN_CONSTANT_TARGET, f.what);
-            }
-            f.oracle != KNOWN_CONSTANT_TARGET
-        })
-        .collect();
     if fails.is_empty() {
         println!("REPLAY: property=C08 passes: {}", path);
         0
@@ -699,6 +667,15 @@ fn main() {
         }
         let c = Case { enet: true, x: x.clone(), y: y.clone(), alpha: 0.05, l1_ratio: 0.5, normalize: false, tol: 1e-4, max_iter: 1000, shift: 0.0 };
         corr_case(&mut out, &c, "enet_fit");
+        // corpus: constant target (repaired eff8af9): hang for n*alpha = 0.25, Err for a generic alpha
+        let x1 = vec![vec![1.0], vec![2.0], vec![3.0], vec![4.0]];
+        for &(alpha, enet, normalize) in &[(0.0625, false, false), (0.1, false, true), (0.0625, true, false), (1e-3, true, true)] {
+            let c = Case { enet, x: x1.clone(), y: vec![1.0; 4], alpha, l1_ratio: if enet { 0.5 } else { 1.0 }, normalize, tol: 1e-4, max_iter: 1000, shift: 0.0 };
+            search_case(&mut out, &c, "corpus-constant-target");
+            corr_case(&mut out, &c, if enet { "enet_fit" } else { "lasso_fit" });
+        }
+        let c = Case { enet: false, x: vec![vec![-0.5625], vec![-0.125], vec![0.0625], vec![-0.1875]], y: vec![15.5625; 4], alpha: 1e-3, l1_ratio: 1.0, normalize: true, tol: 1e-5, max_iter: 1000, shift: 0.0 };
+        search_case(&mut out, &c, "corpus-constant-target");
     }
 
     // ---- correspondence ----
@@ -759,9 +736,9 @@ fn main() {
         }
         search_case(&mut out, &c, "y-scale");
     }
-    // constant targets (known finding `constant-target`): Err("tolerance shoud be > 0") for a generic alpha,
-    // a hang when n*alpha is a power of two below 1 (one such probe per run: the stuck thread is leaked)
-    for i in 0..(if a.thorough { 12 } else { 4 }) {
+    // constant targets (repaired defect eff8af9: Err("tolerance shoud be > 0") for a generic alpha, a hang when
+    // n*alpha is a power of two below 1): the optimum is w = 0, intercept = mean(y)
+    for i in 0..(if a.thorough { 60 } else { 12 }) {
         let enet = i % 2 == 1;
         let mut c = gen_case(&mut rng, 12, 3, enet, false);
         let v = *rng.pick(&[0.0, 1.0, 15.5625, -3.0]);
@@ -769,14 +746,11 @@ fn main() {
             *yi = v;
         }
         c.shift = 0.0;
-        if i == 0 {
-            c.enet = false;
+        if i % 3 == 0 {
             c.alpha = 0.25 / c.x.len() as f64;
         }
-        out.eval(case_key(&c), false);
-        out.count("search:constant-target");
-        let (fails, _) = evaluate(&c);
-        record(&mut out, &c, fails, "fit");
+        c.shift = if i % 4 == 0 { 10.0 } else { 0.0 };
+        search_case(&mut out, &c, "constant-target");
     }
     // invalid settings
     for _ in 0..(if a.thorough { 150 } else { 25 }) {
